@@ -207,6 +207,9 @@ void run_efun (int f, mixed a, mixed b) {
     tell_object (this_object (), "t" + sizeof (a)); tell_room (this_object (), "r" + sizeof (b)); tell_room (this_object (), "r", ({ this_object () }));
     message ("c", "m" + sizeof (a), this_object (), ({ this_object () }));
     break;
+  case 88:   // a mapping with more than 256 and more than 65536/256 nodes, released at once
+    m = ([ ]); for (i1 = 0; i1 < 300; i1++) m[i1] = (i1 & 7) ? i1 : ({ a }); r = m; m = 0; r = sizeof (r) + sizeof (keys (r));
+    break;
   case 39: r = allocate_mapping (3); r["k"] = ({ a }); r[({ b })] = r["k"] + raise (b); break;
   }
 }
